@@ -1166,11 +1166,15 @@ Qed.
 Lemma mems_same_remove_added ms ms2 d :
   mems_same (ms ++ [d]) ms2 -> (forall x, In x ms -> dm_id x <> dm_id d) -> mems_same ms (remove_mem ms2 (dm_id d)).
 Proof.
-  unfold mems_same. revert ms2. induction ms as [|x ms IH]; intros ms2 H Hf; cbn in *.
-  - destruct ms2 as [|y [|z t]]; cbn in H; try discriminate. injection H as H. cbn.
-    assert (dm_id y = dm_id d) by (unfold mem_key in H; congruence). rewrite H0, Z.eqb_refl. reflexivity.
-  - destruct ms2 as [|y ms2]; cbn in H; [discriminate|]. injection H as Hk Hr. cbn.
+  unfold mems_same. revert ms2. induction ms as [|x ms IH]; intros ms2 H Hf; cbn [app map] in *.
+  - destruct ms2 as [|y [|z t]]; cbn [map] in H; try discriminate. cbn [remove_mem].
+    assert (E : mem_key d = mem_key y) by congruence.
+    assert (dm_id y = dm_id d) by (unfold mem_key in E; congruence). rewrite H0, Z.eqb_refl. reflexivity.
+  - destruct ms2 as [|y ms2]; cbn [map] in H; [discriminate|].
+    assert (Hk : mem_key x = mem_key y) by congruence.
+    assert (Hr : map mem_key (ms ++ [d]) = map mem_key ms2) by congruence.
+    cbn [remove_mem].
     assert (E : dm_id y = dm_id x) by (unfold mem_key in Hk; congruence).
     destruct (dm_id y =? dm_id d) eqn:Ey; [apply Z.eqb_eq in Ey; exfalso; apply (Hf x); [left; reflexivity|congruence]|].
-    cbn. rewrite Hk. f_equal. apply IH; auto.
+    cbn [map]. rewrite Hk. f_equal. apply IH; auto. intros z Hz. apply Hf. right. auto.
 Qed.
